@@ -531,6 +531,7 @@ def r196(ctx):
 
 def run(ctx):
     ctx.rule("R-19.6", "the flattened box matrix has the element order of the g96 BOX record (folded from the source, comprehensions included)", floor=1)
+    ctx.rule("R-19.8", "the multi-frame readers return each frame with its own arrays (a buffer handed out is re-allocated before it is written again): frame k is frame k", floor=3)
     ctx.rule("R-19.7", "positional role agreement in the codecs: (box, xyz, vel, names) / (id_type, pos, vel, box) / (rawdata, xyz, vel, box) are unpacked and passed at the positions where the callee returns / expects them", floor=12)
     ctx.rule("R-19.1", "g96 field widths / counts / prefix agree between writer and reader", floor=4)
     ctx.rule("R-19.2", "xyz field count, column order, box token and header line count agree", floor=4)
@@ -539,7 +540,10 @@ def run(ctx):
     ctx.rule("R-19.5", "reverse-velocity siblings negate velocities and nothing else", floor=5)
     for r in (r191, r192, r193, r194, r195, r196):
         ctx.attempt(r, ctx)
-    from .shared import role_agreement
+    from .shared import role_agreement, handed_out_buffers
+    from .c13 import readers
+    for rf in readers(ctx.tree):
+        ctx.attempt(handed_out_buffers, ctx, "R-19.8", rf, "frame k of a multi-frame file is returned with frame k's own box and coordinates")
     P19 = ("_read_configuration", "_reverse_velocities", "_extract_frame", "convert_snapshot", "read_xyz_file", "write_xyz_trajectory",
            "read_lammpstrj", "write_lammpstrj", "read_gromos96_file", "write_gromos96_file", "read_cp2k_box", "read_box_data",
            "dump_frame", "dump_config", "read_trr_frame", "read_trr_header", "read_trr_data", "read_energies", "read_cp2k_energy")
@@ -547,6 +551,8 @@ def run(ctx):
 
 
 VARIANTS = [
+    B("c19-ase-reverse-momenta-mixup", ASE, "        vel = atoms.get_velocities()\n        atoms.set_velocities(-vel)\n        write(outfile, atoms)", "        atoms.set_momenta(-atoms.get_velocities())\n        write(outfile, atoms)", "R-19.5", why="seeded C11_c"),
+    B("c19-lammps-shared-box-buffer", ENGPARTS, "            coordinate_snapshot = np.zeros((N_atoms, 6), dtype=np.float64)\n            box_snapshot = np.zeros((3, 3), dtype=np.float64)\n    return trajectory, box", "            coordinate_snapshot = np.zeros((N_atoms, 6), dtype=np.float64)\n    return trajectory, box", "R-19.8", control=True, why="seeded C19_c (same idea as C12_a)"),
     B("c19-lammps-reverse-unpack-permuted", LAMMPS, "        id_type, pos, vel, box = read_lammpstrj(filename, 0, self.n_atoms)\n        vel *= -1.0", "        id_type, vel, pos, box = read_lammpstrj(filename, 0, self.n_atoms)\n        vel *= -1.0", "R-19.7", control=True),
     B("c19-turtle-snapshot-unpack-permuted", TURTLE, "            box, xyz, vel, names = convert_snapshot(snapshot)\n            return xyz, vel, box, names", "            xyz, box, vel, names = convert_snapshot(snapshot)\n            return xyz, vel, box, names", "R-19.7"),
     B("c19-gromacs-writer-args-swapped", GROMACS, "            write_gromos96_file(out_file, self.top, xyz, vel, box)", "            write_gromos96_file(out_file, self.top, vel, xyz, box)", "R-19.7"),
